@@ -96,7 +96,22 @@ CONFIG.required_theorems = [
     "ha_error_only_when_all_failed",
 ]
 CONFIG.translators = [tables.gen_ha_predicates]
-CONFIG.engines = [Engine("c15", ["exec_c15.c"], "drv_c15", gen)]
+def gen_b(rng, tier):
+    """a real HA service over real TCP sub-services on a scripted socket, the configuration callback registered on the context:
+    pushed configurations (in and out of range, growing and shrinking) reach the user consolidated only"""
+    L = [1, 2, 5, 17, 20, 21, 25, 0, 255]
+    P = [100, 200, 400, 20000, 99, 20001, 60000, 0]
+    R = [1, 10, 100, 16000, 16001, 50000, 0]
+    for _ in range(40 if tier == "quick" else 600):
+        n = rng.choice([1, 2, 2, 3])
+        confs = []
+        for _ in range(rng.randrange(1, 7)):
+            f = lambda vals: "x" if rng.random() < 0.2 else str(rng.choice(vals))   # noqa: E731
+            confs.append("%s:%s:%s" % (f(L), f(P), f(R)))
+        yield "hapush %d %s" % (n, ";".join(confs))
+
+
+CONFIG.engines = [Engine("c15", ["exec_c15.c"], "drv_c15", gen), Engine("c15b", ["exec_c15b.c"], "drv_c15", gen_b, wraps=["time"])]
 CONFIG.rule = ("statics of net_ha.c reached by #include: the four range predicates over 0..70000 (thorough: every value; quick: "
                "stride 7 with random offset) and boundary 64-bit values, compared with the translated Lean predicates and with the "
                "documented ranges; KSI_HighAvailabilityService_consolidateConfig on all pairs of per-field boundary values and on all "
